@@ -2,6 +2,7 @@ package rules
 
 import (
 	"fmt"
+	"go/ast"
 	"go/token"
 	"go/types"
 	"strings"
@@ -597,6 +598,98 @@ func isConstLike(v ssa.Value) bool {
 	return false
 }
 
+
+// sortMakesOrderDeterministic: sorting distinct map keys by their natural order is deterministic; a custom
+// comparator only if it is a strict total order on the elements — accepted when both operands of its comparison
+// are computed from the two elements without reading another map (a tie between equal sort keys, e.g. areas
+// looked up per index, leaves the random input order in place and sort.Slice is not stable either).
+func sortMakesOrderDeterministic(call *ssa.Call) (bool, string) {
+	id := core.StaticCalleeID(call)
+	switch {
+	case id == "sort.Ints" || id == "sort.Strings" || id == "sort.Float64s":
+		return true, ""
+	case strings.HasPrefix(id, "slices.Sort[") || id == "slices.Sort" || strings.HasPrefix(id, "golang.org/x/exp/slices.Sort[") || id == "golang.org/x/exp/slices.Sort":
+		return true, ""
+	case id == "sort.Slice" || id == "sort.SliceStable" || strings.HasPrefix(id, "slices.SortFunc") || strings.HasPrefix(id, "slices.SortStableFunc") || strings.HasPrefix(id, "golang.org/x/exp/slices.SortFunc"):
+		if len(call.Call.Args) < 2 {
+			return false, "comparator not found"
+		}
+		var fn *ssa.Function
+		switch c := call.Call.Args[1].(type) {
+		case *ssa.MakeClosure:
+			fn, _ = c.Fn.(*ssa.Function)
+		case *ssa.Function:
+			fn = c
+		}
+		if fn == nil {
+			return false, "comparator is not a function literal"
+		}
+		var reads func(v ssa.Value, seen map[ssa.Value]bool) string
+		reads = func(v ssa.Value, seen map[ssa.Value]bool) string {
+			if v == nil || seen[v] {
+				return ""
+			}
+			seen[v] = true
+			switch x := v.(type) {
+			case *ssa.Lookup:
+				return "reads a map (" + x.String() + ")"
+			case *ssa.Call:
+				if _, isB := x.Call.Value.(*ssa.Builtin); !isB {
+					if cal := x.Call.StaticCallee(); cal == nil || classifyExternal(core.FuncID(funcObj(cal)), core.FuncPkgPath(cal)) != extPure {
+						if cal == nil || !analysable(cal) {
+							return "calls " + x.String()
+						}
+					}
+				}
+				for _, a := range x.Call.Args {
+					if r := reads(a, seen); r != "" {
+						return r
+					}
+				}
+			case *ssa.Phi:
+				for _, e := range x.Edges {
+					if r := reads(e, seen); r != "" {
+						return r
+					}
+				}
+			case *ssa.BinOp:
+				if r := reads(x.X, seen); r != "" {
+					return r
+				}
+				return reads(x.Y, seen)
+			case *ssa.UnOp:
+				return reads(x.X, seen)
+			case *ssa.Extract:
+				return reads(x.Tuple, seen)
+			case *ssa.Field:
+				return reads(x.X, seen)
+			case *ssa.FieldAddr:
+				return reads(x.X, seen)
+			case *ssa.IndexAddr:
+				return reads(x.X, seen)
+			case *ssa.Index:
+				return reads(x.X, seen)
+			case *ssa.Convert:
+				return reads(x.X, seen)
+			case *ssa.ChangeType:
+				return reads(x.X, seen)
+			}
+			return ""
+		}
+		for _, b := range fn.Blocks {
+			for _, in := range b.Instrs {
+				if ret, ok := in.(*ssa.Return); ok && len(ret.Results) == 1 {
+					if r := reads(ret.Results[0], map[ssa.Value]bool{}); r != "" {
+						return false, "the comparator " + r + ": equal sort keys are possible, ties keep the random input order"
+					}
+				}
+			}
+		}
+		return true, "custom comparator over the elements themselves (assumed a strict total order on distinct elements)"
+	}
+	return false, ""
+}
+
 // carriedKind classifies a loop-header phi.
 func (oc *orderChecker) carriedKind(l *loopInfo, phi *ssa.Phi) string {
 	// set S of values equivalent to "the accumulator so far"
@@ -835,7 +928,11 @@ func (oc *orderChecker) checkUnorderedCell(a *ssa.Alloc, producer *loopInfo, wha
 					}
 				}
 				if call, ok := v.(*ssa.Call); ok && isSort(core.StaticCalleeID(call)) {
-					sortCall = call
+					if okSort, why := sortMakesOrderDeterministic(call); okSort {
+						sortCall = call
+					} else if why != "" {
+						oc.reasons = append(oc.reasons, fmt.Sprintf("%s: sorted with a comparator that does not fix the order: %s @%s", what, why, oc.c.P.Pos(call.Pos())))
+					}
 				}
 			}
 		}
@@ -939,12 +1036,15 @@ func (oc *orderChecker) checkUnorderedUses(v ssa.Value, producer *loopInfo, what
 			return
 		}
 		// a sort of v that dominates the other uses makes the order deterministic
-		var sortCall ssa.Instruction
+		var sortCall *ssa.Call
 		for _, r := range *refs {
 			if call, ok := r.(*ssa.Call); ok {
-				id := core.StaticCalleeID(call)
-				if (id == "sort.Ints" || id == "sort.Strings" || id == "sort.Float64s" || id == "sort.Slice" || id == "sort.SliceStable" || strings.HasPrefix(id, "slices.Sort") || strings.HasPrefix(id, "golang.org/x/exp/slices.Sort")) && len(call.Call.Args) >= 1 && call.Call.Args[0] == v {
-					sortCall = call
+				if len(call.Call.Args) >= 1 && (call.Call.Args[0] == v || feeds(v, call)) {
+					if ok, why := sortMakesOrderDeterministic(call); ok {
+						sortCall = call
+					} else if why != "" {
+						oc.reasons = append(oc.reasons, fmt.Sprintf("%s: sorted with a comparator that does not fix the order: %s @%s", what, why, oc.c.P.Pos(call.Pos())))
+					}
 				}
 			}
 		}
@@ -952,7 +1052,7 @@ func (oc *orderChecker) checkUnorderedUses(v ssa.Value, producer *loopInfo, what
 			if producer != nil && producer.fn == r.Parent() && (producer.blocks[r.Block()] || r.Block() == producer.header) {
 				continue // the collecting loop itself
 			}
-			if r == sortCall {
+			if sortCall != nil && r == ssa.Instruction(sortCall) {
 				continue
 			}
 			if sortCall != nil && core.Dominates(sortCall, r) {
@@ -1063,7 +1163,12 @@ func (oc *orderChecker) checkUnorderedUses(v ssa.Value, producer *loopInfo, what
 				}
 			case *ssa.Return:
 				fail("returned to the caller in nondeterministic order")
-			case *ssa.MapUpdate, *ssa.Send, *ssa.MakeInterface:
+			case *ssa.MakeInterface:
+				if sortCall != nil && feeds(v, sortCall) {
+					continue
+				}
+				fail("escapes (" + r.String() + ")")
+			case *ssa.MapUpdate, *ssa.Send:
 				fail("escapes (" + r.String() + ")")
 			case *ssa.Range:
 				fail("ranged as a whole")
@@ -1106,8 +1211,36 @@ func valueLabel(v ssa.Value) string {
 		if x.Comment != "" {
 			return x.Comment
 		}
+	case *ssa.MakeMap, *ssa.MakeSlice:
+		if n := nameFromSyntax(v); n != "" {
+			return n
+		}
 	}
 	return "value"
+}
+
+// nameFromSyntax finds the variable a make(...) expression is assigned to.
+func nameFromSyntax(v ssa.Value) string {
+	in, ok := v.(ssa.Instruction)
+	if !ok || in.Parent() == nil || in.Parent().Syntax() == nil {
+		return ""
+	}
+	name := ""
+	ast.Inspect(in.Parent().Syntax(), func(n ast.Node) bool {
+		as, ok := n.(*ast.AssignStmt)
+		if !ok {
+			return name == ""
+		}
+		for i, rhs := range as.Rhs {
+			if call, ok := rhs.(*ast.CallExpr); ok && call.Lparen == v.Pos() && i < len(as.Lhs) {
+				if id, ok := as.Lhs[i].(*ast.Ident); ok {
+					name = id.Name
+				}
+			}
+		}
+		return name == ""
+	})
+	return name
 }
 
 func shortFn(f *ssa.Function) string {
